@@ -8,6 +8,7 @@ from vmon.refs import txser as R
 from vmon.gen import txgen as G
 
 PROPERTY = "C13"
+PRELOAD_NETWORK_ORDERS = [["btc", "xtn", "ltc", "bch", "grs", "doge", "dash", "btg"], ["btg", "grs", "bch", "doge", "ltc", "xtn", "btc"]]
 LEVEL = "exploration"
 TECHNIQUE = "integer arithmetic model of the split pool + single-discrepancy source databases + exact rational conversion oracle"
 RULE = ("cases: (a) create_tx / distribute_from_split_pool builds with 1..8 spendables (objects, text, dict forms), payables mixing fixed "
